@@ -8,8 +8,9 @@ XTCE_NS = "https://www.omg.org/spec/XTCE/20180204"
 
 
 class Spelling:
-    def __init__(self, kind="prefix", prefix="xtce", comments=0.0, pretty=True, extra_ns=True, uri=None):
+    def __init__(self, kind="prefix", prefix="xtce", comments=0.0, pretty=True, extra_ns=True, uri=None, mixed=False):
         self.kind, self.prefix, self.comments, self.pretty, self.extra_ns = kind, prefix, comments, pretty, extra_ns
+        self.mixed = mixed
         self.uri = uri or XTCE_NS
 
     @property
@@ -25,6 +26,8 @@ class Spelling:
             m[None] = self.uri
         if self.extra_ns:
             m["xsi"] = "http://www.w3.org/2001/XMLSchema-instance"
+        if self.mixed and self.kind != "none":
+            m["alt"] = self.uri        # the same namespace under a second prefix (see `document`)
         return m
 
 
@@ -129,7 +132,14 @@ class Writer:
 
     # -- encodings ----------------------------------------------------------------------------
     def adj(self, t):
-        return None if t == "-" else self.E("LinearAdjustment", {"slope": t[0], "intercept": t[1]})
+        if t == "-":
+            return None
+        a = {"slope": t[0], "intercept": t[1]}
+        # both attributes default to 0 in XTCE: a zero may be left unwritten
+        for k in ("slope", "intercept"):
+            if a[k] == "0" and self.rng.random() < 0.5:
+                del a[k]
+        return self.E("LinearAdjustment", a)
 
     def encoding(self, t):
         k = t[0]
@@ -275,4 +285,15 @@ def document(rng, dsx, sp, date="2024-01-01T00:00:00", decorate=True, header=Tru
             del hattrs[k]
     hdr = w.E("Header", hattrs) if header else None
     root = w.E("SpaceSystem", {"name": name} if name else None, hdr, tm, root=True)
-    return ET.tostring(root, pretty_print=sp.pretty, xml_declaration=True, encoding="utf-8")
+    out = ET.tostring(root, pretty_print=sp.pretty, xml_declaration=True, encoding="utf-8")
+    if sp.mixed and sp.kind != "none":
+        # some kinds of element are spelled with the second prefix bound to the same namespace: lexically another
+        # spelling, the same elements (lxml itself always picks one prefix per namespace, hence the textual step)
+        pre = (sp.prefix + ":") if sp.kind == "prefix" else ""
+        names = ["SequenceContainer", "Parameter", "IntegerParameterType", "Comparison", "EntryList", "ParameterRefEntry",
+                 "IntegerDataEncoding", "BaseContainer", "EnumeratedParameterType", "Term", "ContainerSet"]
+        for nm in rng.sample(names, rng.randrange(2, 6)):
+            for a, b in ((f"<{pre}{nm} ", f"<alt:{nm} "), (f"<{pre}{nm}>", f"<alt:{nm}>"), (f"<{pre}{nm}/>", f"<alt:{nm}/>"),
+                         (f"</{pre}{nm}>", f"</alt:{nm}>")):
+                out = out.replace(a.encode(), b.encode())
+    return out
